@@ -178,4 +178,50 @@ theorem calls_sinv (A : Alg F) : ∀ (qs : List (Int × Int)) (p : Prop_ F), SIn
 theorem init_sinv (A : Alg F) (cte : Bool) (memoize : Nat) : SInv (init A cte memoize) :=
   ⟨by simp [init], by simp [init]; omega⟩
 
+/-- the size bound as an invariant of whole histories -/
+structure BInv (p : Prop_ F) : Prop where
+  mem : 1 ≤ p.memoize
+  len : p.times.length ≤ p.memoize
+
+theorem lookup_binv (A : Alg F) (p : Prop_ F) (h : BInv p) (t : Int) : BInv (lookup A p t).1 :=
+  ⟨by rw [lookup_memoize]; exact h.mem, by rw [lookup_memoize]; exact lookup_length p h.mem h.len t⟩
+
+theorem callFrom_binv (A : Alg F) (p : Prop_ F) (h : BInv p) (t s : Int) : BInv (callFrom A p t s).1 := by
+  unfold callFrom
+  split
+  · exact lookup_binv A p h _
+  · exact lookup_binv A _ (lookup_binv A p h s) t
+
+theorem call_binv (A : Alg F) (p : Prop_ F) (h : BInv p) (t s : Int) : BInv (call A p t s).1 := by
+  unfold call
+  split
+  · apply callFrom_binv
+    split
+    · exact lookup_binv A p h 0
+    · exact h
+  · exact lookup_binv A p h t
+
+theorem calls_binv (A : Alg F) : ∀ (qs : List (Int × Int)) (p : Prop_ F), BInv p → BInv (calls A p qs).1
+  | [], p, h => h
+  | (t, s) :: qs, p, h => by
+    unfold calls
+    exact calls_binv A qs _ (call_binv A p h t s)
+
+theorem call_memoize (A : Alg F) (p : Prop_ F) (t s : Int) : (call A p t s).1.memoize = p.memoize := by
+  unfold call
+  split
+  · unfold callFrom
+    split <;> split <;> simp [lookup_memoize]
+  · exact lookup_memoize A p t
+
+theorem calls_memoize (A : Alg F) : ∀ (qs : List (Int × Int)) (p : Prop_ F), (calls A p qs).1.memoize = p.memoize
+  | [], p => rfl
+  | (t, s) :: qs, p => by
+    unfold calls
+    simp only
+    rw [calls_memoize A qs, call_memoize]
+
+theorem init_binv (A : Alg F) (cte : Bool) (memoize : Nat) : BInv (init A cte memoize) :=
+  ⟨by simp [init]; omega, by simp [init]; omega⟩
+
 end Qv.C11
